@@ -1,10 +1,37 @@
-"""C15: C wrapper — generated forwarding/catch table + theorems, K6 lock-step correspondence (DESIGN.md 6/C15, 12)."""
+"""C15: C wrapper — generated forwarding/catch table + theorems, K6 lock-step correspondence (DESIGN.md 6/C15, 12).
+The clause "tables from _init/_read have no minimum load factor, so policy exceptions cannot arise" rests on the comparison
+`load_factor() < minimum_load_factor()` being strict (with a minimum of 0 it is then never true).  Sequentially that
+comparison is observable only at a positive minimum, so dedicated K2 streams expand tables whose load factor EQUALS the
+minimum (1.0, full table): a refusal there is a failing input for the strictness the C tables depend on."""
+import k2
+import k2check
 import k6check
 
 
+def boundary_streams(tier, rng):
+    out = []
+    one = k2.dbits(1.0)
+    for S, M in ((1, 2), (2, 2), (4, 4)):
+        cfg = k2.Cfg(S, M, 0, 0)
+        lines = [cfg.line(), "m new 0 %d" % S, "m setmlf 0 %d" % one, "m stats 0"]
+        for k in range(0, 3 * S + 3):
+            lines += ["m insert 0 %d %d" % (k, k + 100), "m stats 0"]
+        # and with the setting the C interface uses
+        lines += ["m new 0 %d" % S, "m setmlf 0 %d" % k2.dbits(0.0), "m stats 0"]
+        for k in range(0, 6 * S + 3):
+            lines += ["m insert 0 %d %d" % (k, k + 100), "m stats 0"]
+        out.append((cfg, lines))
+    return out
+
+
 def run(tier):
-    return k6check.run("C15", tier)
+    return k6check.run("C15", tier, phases=[k2check.streams_phase("C15", "mlf-boundary", boundary_streams,
+                       what="load_factor_too_low raised although the load factor is not below the minimum (C tables run with minimum 0)")])
 
 
 def replay(path):
+    import json
+    d = json.load(open(path))
+    if any("cfg_line" in f for f in d.get("failing_inputs", [])):
+        return k2check.replay("C15", path)
     return k6check.replay("C15", path)
